@@ -71,9 +71,24 @@ def step1Old (s : St1) : Op1 → St1
       else s
   | o => step1 s o
 
+/-- a variant of the routine that only asks whether *some* removal of the id is registered (instead of
+comparing the channel it was started with): a stale routine then completes a removal scheduled later,
+whose own timer has not fired (seeded change C11r4-B) -/
+def step1Planned (s : St1) : Op1 → St1
+  | .reap g =>
+      if g ∈ s.firing then
+        let s' := { s with firing := s.firing.filter (· != g) }
+        if s.armed.isSome then { s' with slot := .absent, armed := none } else s'
+      else s
+  | o => step1 s o
+
 def run1 (s : St1) : List Op1 → St1
   | [] => s
   | o :: os => run1 (step1 s o) os
+
+def run1Planned (s : St1) : List Op1 → St1
+  | [] => s
+  | o :: os => run1Planned (step1Planned s o) os
 
 def run1Old (s : St1) : List Op1 → St1
   | [] => s
